@@ -275,6 +275,8 @@ pub struct Interp<'a> {
     pub if_error_aborts: bool,
     /// a value left the range in which all data models agree
     pub out_of_domain: std::cell::Cell<bool>,
+    /// one entry per idle point: the complete state (configuration, history, data) as text
+    pub idle_keys: Vec<String>,
 }
 
 #[derive(Clone, Copy, PartialEq, Debug)]
@@ -305,6 +307,7 @@ impl<'a> Interp<'a> {
             final_cfg: Vec::new(),
             if_error_aborts: false,
             out_of_domain: std::cell::Cell::new(false),
+            idle_keys: Vec::new(),
         }
     }
 
@@ -970,6 +973,7 @@ impl<'a> Interp<'a> {
             }
             // idle: wait for an external event
             self.trace.push(Rec::Idle(self.cfg_names(), self.hist_names()));
+            self.idle_keys.push(format!("{:?}|{:?}|{:?}", self.cfg, self.hist, self.store));
             if mode == Mode::FedAtIdle {
                 if let Some(e) = self.feed.pop_front() {
                     self.external.push_back(QEvent { name: e });
